@@ -69,10 +69,20 @@ def check_stack(case: dict):
         dev = SimDevice(loop, version=2, device_id=3, ac=m)
         net.listen("10.0.0.9", 6444, dev)
         ac = AC(ip="10.0.0.9", port=6444, device_id=3)
+        if case.get("extra_at_caps"):
+            # the capability exchange also delivers an unsolicited (valid) state report of the old state next to its answer
+            m.response_hook = lambda fr, p, outp: ([m.state_frame(0x03)] + outp + [m.state_frame(0x04)]) if p.body[0] == 0xB5 else outp
         await ac.get_capabilities()
+        m.response_hook = None
         await ac.refresh()
         res["ready"] = ac.online and ac.supported
         res["before"] = RK.snapshot(ac)
+        if case.get("extra_at_caps") == 2:
+            # ... and once more right before the corrupted exchange (nothing of the good device's traffic may make up for the
+            # corrupted answers of the next refresh)
+            m.response_hook = lambda fr, p, outp: ([m.state_frame(0x03)] + outp) if p.body[0] == 0xB5 else outp
+            await ac.get_capabilities()
+            res["before"] = RK.snapshot(ac)
         # someone used the remote: everything differs; every request is answered with the corrupted frame
         m1 = RK.model(1)
         m.state, m.cap_pages, m.props, m.energy, m.indoor_humidity = m1.state, m1.cap_pages, m1.props, m1.energy, m1.indoor_humidity
@@ -229,7 +239,7 @@ def _run_one(ctx, case):
     valid = RK.is_valid(f)
     n = len(f)
     nt = (not valid) and (case["pos"] % n) < n - 2
-    ctx.case(hash((case["kind"], case["pos"] % n, case["val"], case["fix"], case.get("level", "decoder"), case.get("base"))), nt,
+    ctx.case(hash((case["kind"], case["pos"] % n, case["val"], case["fix"], case.get("level", "decoder"), case.get("base"), case.get("extra_at_caps"))), nt,
              cls=f"{case.get('level', 'decoder')}/{case['kind']}/{'fixup' if case['fix'] else 'plain'}")
     if valid:
         ctx.label("accepted_by_design")
@@ -266,6 +276,8 @@ def run(ctx) -> None:
                     s += 1
                     if ctx.mine(s):
                         case = {"kind": kind, "pos": pos, "val": val, "fix": fix, "level": "stack"}
+                        if s % 5 == 0:
+                            case["extra_at_caps"] = 1 + (s // 5) % 2
                         ctx.check(case, lambda c: _run_one(ctx, c))
     ctx.sweep("decoder level: all positions x all 255 substitutes x fix-up", n, True)
     # header bytes (length byte in particular) over many different valid frames of each kind: whether a corrupted
